@@ -121,7 +121,7 @@ def main():
         ],
         "checks": checks,
         "not_applicable": na,
-        "notes": "All checks: ./check <ID> quick|thorough; replay: ./check <ID> --replay <file> (structural: the decoded case in the file is re-run, no generator involved). Exit 2 = harness could not decide (never a violation). Known findings: /verif/known_findings.json. Seeded breaking changes and what catches them: /verif/seeded/*/meta.json and DESIGN.md §10. Hook commits only add cfg-guarded code; the later ones rewrite lines of earlier hook code, never original lines.",
+        "notes": "All checks: ./check <ID> quick|thorough; replay: ./check <ID> --replay <file> (structural: the decoded case in the file is re-run, no generator involved). Exit 2 = harness could not decide (never a violation). Known findings: /verif/known_findings.json. Seeded breaking changes (171 in six rounds) and what catches them: /verif/seeded/*/meta.json and DESIGN.md §10, §11, §12. Hook commits only add cfg-guarded code; the later ones rewrite lines of earlier hook code, never original lines.",
     }
     json.dump(m, open(os.path.join(V, "MANIFEST.json"), "w"), indent=1)
     print("wrote MANIFEST.json:", len(checks), "checks,", len(na), "not claimed")
